@@ -81,7 +81,7 @@ _P = {
  'C17': entry('Lean 4 proof (cache state machine refinement: every read returns the matrix of the current epoch) + history-based correspondence',
     'Theorems C17_refinement (StateSpace rate-matrix cache), share_refinement (state spaces shared by Inference.get_coal) and memo_refinement / memo_order_irrelevant / memo_fresh_equiv (functools.cache on moment, _accumulate, _get_P and the '
     'cached_property slots: every query history answers like the memo-free evaluator); real code: random query histories vs fresh objects, cache off, shared state spaces '
-    'through Inference.get_coal, parallel vs sequential; hit/miss pattern and answers diffed against both models; the concrete cache key (EpochKey: key_sound_table, cache_instantiated_table) with real Epoch == / hash on random pairs.', 'Process-pool scheduling is runtime (partial). '),
+    'through Inference.get_coal, parallel vs sequential; hit/miss pattern and answers diffed against both models; the concrete cache key (EpochKey: key_sound_table, cache_instantiated_table) with real Epoch == / hash on random pairs.', 'Worker pools: parallelize_schedule_irrelevant (any completion schedule) + the real utils.parallelize with and without progress bar; that multiprocessing delivers each result exactly once is trusted. '),
  'C18': entry('Lean 4 proof on a model with the codec as a parameter + round-trip oracle on the real code', 
     'Theorems: round trip preserves statistics because statistics depend on the configuration only (C17 refinement), original untouched, idempotent; '
     'field level: roundtrip_dict_coalescent / roundtrip_dict_inference / roundtrip_x0_stable on the __getstate__/__setstate__ dict model; '
